@@ -188,15 +188,16 @@ Proof.
   exact (Hind ordV2 G2 P2 E2).
 Qed.
 
-Theorem to_chomsky_order_independent ordV1 ordV2 stream G G1 rest1 G2 rest2 :
+(* two iteration orders (and, more generally, two fresh-name streams; take stream1 = stream2 for two runs of the same call) *)
+Theorem to_chomsky_order_independent ordV1 ordV2 stream1 stream2 G G1 rest1 G2 rest2 :
   cfg_wf G -> EU.names_disjoint G -> In (gS G) (gV G) -> EU.perm_order ordV1 -> EU.perm_order ordV2 ->
-  (forall x, In x stream -> ~ In x (gSg G)) ->
-  to_chomsky ordV1 stream G = Some (G1, rest1) -> to_chomsky ordV2 stream G = Some (G2, rest2) ->
+  (forall x, In x stream1 -> ~ In x (gSg G)) -> (forall x, In x stream2 -> ~ In x (gSg G)) ->
+  to_chomsky ordV1 stream1 G = Some (G1, rest1) -> to_chomsky ordV2 stream2 G = Some (G2, rest2) ->
   gSg G1 = gSg G2 /\ forall w, cfg_lang G1 w <-> cfg_lang G2 w.
 Proof.
-  intros Hwf Hdj HS P1 P2 Hst E1 E2.
-  destruct (ChomskyFinal.to_chomsky_correct ordV1 stream G Hwf Hdj HS P1 Hst E1) as (_ & _ & Sg1 & _ & L1).
-  destruct (ChomskyFinal.to_chomsky_correct ordV2 stream G Hwf Hdj HS P2 Hst E2) as (_ & _ & Sg2 & _ & L2).
+  intros Hwf Hdj HS P1 P2 Hs1 Hs2 E1 E2.
+  destruct (ChomskyFinal.to_chomsky_correct ordV1 stream1 G G1 rest1 Hwf Hdj HS P1 Hs1 E1) as (_ & _ & Sg1 & _ & L1).
+  destruct (ChomskyFinal.to_chomsky_correct ordV2 stream2 G G2 rest2 Hwf Hdj HS P2 Hs2 E2) as (_ & _ & Sg2 & _ & L2).
   split; [congruence|]. intros w. rewrite (L1 w), (L2 w). tauto.
 Qed.
 
@@ -247,3 +248,246 @@ Section SimVerdict.
       + apply (nfa_simulate_none pick2 H2 N Hwf w Hw Eb).
   Qed.
 End SimVerdict.
+
+(* ================= 8. listing order of sets and dicts ================= *)
+(* A Python set / dict field of an automaton is modelled by a list.  Two processes with different hash seeds hold
+   the same sets but may list them in different orders: the lists are permutations of each other (dict: a permutation
+   of the items, the keys being unique).  Verdicts do not depend on the listing. *)
+Section AssocPerm.
+  Context {K V : Type} `{Eqb K}.
+
+  Lemma lookup_unique_key (k : K) (v : V) (m : list (K * V)) : NoDup (map fst m) -> In (k, v) m -> lookup k m = Some v.
+  Proof.
+    induction m as [|[k1 v1] m IH]; cbn [map fst lookup]; [intros _ []|].
+    intros Hnd Hin. inversion Hnd as [|k2 l2 Hnin Hnd']; subst. destruct (eqb k k1) eqn:E.
+    - apply eqb_true in E. subst k1. destruct Hin as [Hin|Hin]; [inversion Hin; reflexivity|].
+      exfalso. apply Hnin. apply in_map_iff. exists (k, v). split; [reflexivity | exact Hin].
+    - apply eqb_neq in E. destruct Hin as [Hin|Hin]; [inversion Hin; congruence|]. apply IH; assumption.
+  Qed.
+
+  (* lookup in a permuted association list with unique keys *)
+  Lemma lookup_perm (k : K) (m1 m2 : list (K * V)) : NoDup (map fst m1) -> Permutation m1 m2 -> lookup k m1 = lookup k m2.
+  Proof.
+    intros Hnd Hp.
+    assert (Hnd2 : NoDup (map fst m2)) by (apply (Permutation_NoDup (Permutation_map fst Hp)); exact Hnd).
+    destruct (lookup k m1) as [v|] eqn:E1; symmetry.
+    - apply lookup_unique_key; [exact Hnd2|]. apply (Permutation_in _ Hp). apply lookup_In; exact E1.
+    - apply lookup_None. intros v Hc. apply (proj1 (lookup_None k m1) E1 v).
+      apply (Permutation_in _ (Permutation_sym Hp)). exact Hc.
+  Qed.
+
+  (* items with equal keys and related values *)
+  Lemma lookup_Forall2 (R : V -> V -> Prop) (k : K) (m1 m2 : list (K * V)) :
+    Forall2 (fun e1 e2 => fst e1 = fst e2 /\ R (snd e1) (snd e2)) m1 m2 ->
+    match lookup k m1, lookup k m2 with
+    | Some v1, Some v2 => R v1 v2
+    | None, None => True
+    | _, _ => False
+    end.
+  Proof.
+    intros HF. induction HF as [|[k1 v1] [k2 v2] m1 m2 [Ek Hr] HF IH]; cbn [lookup]; [exact I|].
+    cbn [fst snd] in Ek, Hr. subst k2. destruct (eqb k k1); [exact Hr | exact IH].
+  Qed.
+
+  Lemma Forall2_In_r {X Y} (R : X -> Y -> Prop) (l1 : list X) (l2 : list Y) y :
+    Forall2 R l1 l2 -> In y l2 -> exists x, In x l1 /\ R x y.
+  Proof.
+    intros HF. induction HF as [|x0 y0 l1 l2 Hr HF IH]; intros Hy; [destruct Hy|].
+    destruct Hy as [<-|Hy]; [exists x0; split; [left; reflexivity | exact Hr]|].
+    destruct (IH Hy) as (x & Hx & Hrx). exists x. split; [right; exact Hx | exact Hrx].
+  Qed.
+End AssocPerm.
+
+Lemma mem_perm {A} `{Eqb A} (x : A) (l1 l2 : list A) : Permutation l1 l2 -> mem x l1 = mem x l2.
+Proof.
+  intros Hp. destruct (mem x l2) eqn:E.
+  - apply mem_In. apply mem_In in E. apply (Permutation_in _ (Permutation_sym Hp)); exact E.
+  - apply mem_nIn. apply mem_nIn in E. intros Hc. apply E. apply (Permutation_in _ Hp); exact Hc.
+Qed.
+
+Section DFAPerm.
+  Context {A : Type} `{Eqb A}.
+
+  (* D2 is D1 with its sets and its transition dict listed in another order *)
+  Definition dfa_perm (D1 D2 : dfa A) : Prop :=
+    Permutation (dQ D1) (dQ D2) /\ Permutation (dS D1) (dS D2) /\ Permutation (dD D1) (dD D2) /\
+    dq0 D1 = dq0 D2 /\ Permutation (dF D1) (dF D2).
+
+  Lemma ddelta_perm (D1 D2 : dfa A) : NoDup (map fst (dD D1)) -> Permutation (dD D1) (dD D2) ->
+    forall q a, ddelta D1 q a = ddelta D2 q a.
+  Proof. intros Hnd Hp q a. unfold ddelta. apply lookup_perm; assumption. Qed.
+
+  Lemma dfa_run_ext (D1 D2 : dfa A) : (forall q a, ddelta D1 q a = ddelta D2 q a) ->
+    forall w q, dfa_run D1 q w = dfa_run D2 q w.
+  Proof.
+    intros Hd. induction w as [|a w IH]; intros q; cbn [dfa_run]; [reflexivity|].
+    rewrite Hd. destruct (ddelta D2 q a) as [q1|]; [apply IH | reflexivity].
+  Qed.
+
+  (* the verdict (including the KeyError outcome None) is the identical value *)
+  Theorem dfa_accepts_perm (D1 D2 : dfa A) (w : word) : NoDup (map fst (dD D1)) -> dfa_perm D1 D2 ->
+    dfa_accepts D1 w = dfa_accepts D2 w.
+  Proof.
+    intros Hnd (_ & _ & HD & Hq0 & HF). unfold dfa_accepts.
+    rewrite (dfa_run_ext D1 D2 (ddelta_perm D1 D2 Hnd HD) w), Hq0.
+    destruct (dfa_run D2 (dq0 D2) w) as [q|]; [|reflexivity]. rewrite (mem_perm q _ _ HF). reflexivity.
+  Qed.
+
+  (* validity is not affected either *)
+  Theorem dfa_wf_perm (D1 D2 : dfa A) : NoDup (map fst (dD D1)) -> dfa_perm D1 D2 -> dfa_wf D1 -> dfa_wf D2.
+  Proof.
+    intros Hnd (HQ & HS & HD & Hq0 & HF) (W1 & W2 & W3 & W4).
+    assert (Hd := ddelta_perm D1 D2 Hnd HD).
+    assert (PQ : forall x, In x (dQ D1) <-> In x (dQ D2))
+      by (intros x; split; [apply (Permutation_in _ HQ) | apply (Permutation_in _ (Permutation_sym HQ))]).
+    assert (PS : forall x, In x (dS D1) <-> In x (dS D2))
+      by (intros x; split; [apply (Permutation_in _ HS) | apply (Permutation_in _ (Permutation_sym HS))]).
+    split; [|split; [|split]].
+    - rewrite <- Hq0. apply PQ. exact W1.
+    - intros x Hx. apply PQ. apply W2. apply (Permutation_in _ (Permutation_sym HF)). exact Hx.
+    - intros q a q1 Hin. apply (Permutation_in _ (Permutation_sym HD)) in Hin.
+      destruct (W3 q a q1 Hin) as (K1 & K2 & K3). rewrite <- (PQ q), <- (PS a), <- (PQ q1). auto.
+    - intros q a Hq Ha. rewrite <- Hd. apply W4; [apply PQ; exact Hq | apply PS; exact Ha].
+  Qed.
+End DFAPerm.
+
+Section NFAPerm.
+  Context {A : Type} `{Eqb A}.
+
+  (* same start state, epsilon symbol, and the same transition relation and accepting set as sets *)
+  Definition nfa_same (N1 N2 : nfa A) : Prop :=
+    nq0 N1 = nq0 N2 /\ neps N1 = neps N2 /\ seteq (nF N1) (nF N2) /\
+    forall q a, seteq (ndelta N1 q a) (ndelta N2 q a).
+
+  Lemma nfa_path_same (N1 N2 : nfa A) : nfa_same N1 N2 -> forall p w q, nfa_path N1 p w q -> nfa_path N2 p w q.
+  Proof.
+    intros (_ & He & _ & Hd) p w q Hp. induction Hp as [q|q q1 w q2 Hin Hp IH|q a q1 w q2 Hin Hp IH].
+    - apply np_nil.
+    - apply np_eps with q1; [|exact IH]. rewrite <- He. apply Hd. exact Hin.
+    - apply np_sym with q1; [|exact IH]. apply Hd. exact Hin.
+  Qed.
+
+  Lemma nfa_same_sym (N1 N2 : nfa A) : nfa_same N1 N2 -> nfa_same N2 N1.
+  Proof.
+    intros (E1 & E2 & E3 & E4). split; [auto|]. split; [auto|]. split.
+    - intros x. symmetry. apply E3.
+    - intros q a x. symmetry. apply E4.
+  Qed.
+
+  Lemma nfa_lang_same (N1 N2 : nfa A) (w : word) : nfa_same N1 N2 -> (nfa_lang N1 w <-> nfa_lang N2 w).
+  Proof.
+    intros Hs. assert (Hs' := nfa_same_sym N1 N2 Hs). unfold nfa_lang. split.
+    - intros (qf & Hp & Hf). exists qf. apply (nfa_path_same N1 N2 Hs) in Hp.
+      destruct Hs as (E1 & _ & E3 & _). rewrite <- E1. split; [exact Hp | apply E3; exact Hf].
+    - intros (qf & Hp & Hf). exists qf. apply (nfa_path_same N2 N1 Hs') in Hp.
+      destruct Hs' as (E1 & _ & E3 & _). rewrite <- E1. split; [exact Hp | apply E3; exact Hf].
+  Qed.
+
+  (* two valid automata that are equal as mathematical objects: identical verdict *)
+  Theorem nfa_accepts_same (N1 N2 : nfa A) (w : word) : nfa_wf N1 -> nfa_wf N2 -> nfa_same N1 N2 ->
+    Forall (fun a => In a (nS N1)) w -> Forall (fun a => In a (nS N2)) w ->
+    nfa_accepts N1 w = nfa_accepts N2 w.
+  Proof.
+    intros W1 W2 Hs Hw1 Hw2.
+    destruct (nfa_accepts_correct N1 w W1 Hw1) as (b1 & E1 & K1).
+    destruct (nfa_accepts_correct N2 w W2 Hw2) as (b2 & E2 & K2).
+    rewrite E1, E2. f_equal. pose proof (nfa_lang_same N1 N2 w Hs) as HL.
+    destruct b1, b2; try reflexivity; [symmetry|]; tauto.
+  Qed.
+
+  (* N2 is N1 with every set (states, alphabet, accepting states, each target set) and the transition dict listed in
+     another order *)
+  Definition nfa_perm (N1 N2 : nfa A) : Prop :=
+    Permutation (nQ N1) (nQ N2) /\ Permutation (nS N1) (nS N2) /\ nq0 N1 = nq0 N2 /\ neps N1 = neps N2 /\
+    Permutation (nF N1) (nF N2) /\
+    exists d, Permutation (nD N1) d /\
+              Forall2 (fun e1 e2 => fst e1 = fst e2 /\ Permutation (snd e1) (snd e2)) d (nD N2).
+
+  Lemma nfa_perm_same (N1 N2 : nfa A) : NoDup (map fst (nD N1)) -> nfa_perm N1 N2 -> nfa_same N1 N2.
+  Proof.
+    intros Hnd (_ & _ & Hq0 & He & HF & d & Hp & HF2). split; [exact Hq0|]. split; [exact He|]. split.
+    - intros x. split; [apply (Permutation_in _ HF) | apply (Permutation_in _ (Permutation_sym HF))].
+    - intros q a. unfold ndelta. rewrite (lookup_perm (q, a) _ _ Hnd Hp).
+      pose proof (lookup_Forall2 (fun s1 s2 : list A => Permutation s1 s2) (q, a) _ _ HF2) as HL.
+      destruct (lookup (q, a) d) as [s1|], (lookup (q, a) (nD N2)) as [s2|]; try contradiction.
+      + intros x. split; [apply (Permutation_in _ HL) | apply (Permutation_in _ (Permutation_sym HL))].
+      + intros x. tauto.
+  Qed.
+
+  Theorem nfa_wf_perm (N1 N2 : nfa A) : nfa_perm N1 N2 -> nfa_wf N1 -> nfa_wf N2.
+  Proof.
+    intros (HQ & HS & Hq0 & He & HF & d & Hp & HF2) (W1 & W2 & W3 & W4).
+    assert (PQ : forall x, In x (nQ N1) <-> In x (nQ N2))
+      by (intros x; split; [apply (Permutation_in _ HQ) | apply (Permutation_in _ (Permutation_sym HQ))]).
+    assert (PS : forall x, In x (nS N1) <-> In x (nS N2))
+      by (intros x; split; [apply (Permutation_in _ HS) | apply (Permutation_in _ (Permutation_sym HS))]).
+    split; [|split; [|split]].
+    - rewrite <- Hq0. apply PQ. exact W1.
+    - intros x Hx. apply PQ. apply W2. apply (Permutation_in _ (Permutation_sym HF)). exact Hx.
+    - rewrite <- He. intros Hc. apply W3. apply PS. exact Hc.
+    - intros q a s Hin. destruct (Forall2_In_r _ _ _ _ HF2 Hin) as ([[q' a'] s'] & Hin' & Ek & Hps).
+      cbn [fst snd] in Ek, Hps. inversion Ek; subst q' a'.
+      apply (Permutation_in _ (Permutation_sym Hp)) in Hin'.
+      destruct (W4 q a s' Hin') as (K1 & K2 & K3). split; [apply PQ; exact K1|]. split.
+      + destruct K2 as [K2|K2]; [left; apply PS; exact K2 | right; rewrite <- He; exact K2].
+      + intros x Hx. apply PQ. apply K3. apply (Permutation_in _ (Permutation_sym Hps)). exact Hx.
+  Qed.
+
+  Theorem nfa_accepts_perm (N1 N2 : nfa A) (w : word) : nfa_wf N1 -> NoDup (map fst (nD N1)) -> nfa_perm N1 N2 ->
+    Forall (fun a => In a (nS N1)) w -> nfa_accepts N1 w = nfa_accepts N2 w.
+  Proof.
+    intros W1 Hnd Hp Hw. apply nfa_accepts_same.
+    - exact W1.
+    - apply (nfa_wf_perm N1 N2 Hp W1).
+    - apply nfa_perm_same; assumption.
+    - exact Hw.
+    - destruct Hp as (_ & HS & _). apply Forall_forall. intros a Ha. rewrite Forall_forall in Hw.
+      apply (Permutation_in _ HS). apply Hw. exact Ha.
+  Qed.
+End NFAPerm.
+
+Print Assumptions eclose_pick_independent.
+Print Assumptions eclose_pick_independent_total.
+Print Assumptions min_spec_unique.
+Print Assumptions minimisers_order_independent.
+Print Assumptions iso_pick_independent.
+Print Assumptions dfa_to_regexp_order_independent.
+Print Assumptions dfa_to_regexp_order_independent_fail.
+Print Assumptions elim_unit_order_independent.
+Print Assumptions to_chomsky_order_independent.
+Print Assumptions pda_accepts_pick_independent.
+Print Assumptions pda_words_pick_independent.
+Print Assumptions pda_eclose_pick_independent.
+Print Assumptions nfa_simulate_pick_independent_verdict.
+Print Assumptions lookup_perm.
+Print Assumptions dfa_accepts_perm.
+Print Assumptions dfa_wf_perm.
+Print Assumptions nfa_accepts_same.
+Print Assumptions nfa_wf_perm.
+Print Assumptions nfa_accepts_perm.
+
+(* ================= 9. CFG membership and enumeration through the conversion ================= *)
+(* different iteration orders and even different fresh-name streams: identical verdict, same set of words *)
+Theorem cfg_accepts_order_independent ordV1 ordV2 stream1 stream2 G w b1 b2 :
+  cfg_wf G -> EU.names_disjoint G -> In (gS G) (gV G) -> EU.perm_order ordV1 -> EU.perm_order ordV2 ->
+  (forall x, In x stream1 -> ~ In x (gSg G)) -> (forall x, In x stream2 -> ~ In x (gSg G)) ->
+  CYK.cfg_accepts ordV1 stream1 G w = Some b1 -> CYK.cfg_accepts ordV2 stream2 G w = Some b2 -> b1 = b2.
+Proof.
+  intros Hwf Hdj HS P1 P2 Hs1 Hs2 E1 E2.
+  pose proof (ChomskyFinal.cfg_accepts_correct ordV1 stream1 G w b1 Hwf Hdj HS P1 Hs1 E1) as K1.
+  pose proof (ChomskyFinal.cfg_accepts_correct ordV2 stream2 G w b2 Hwf Hdj HS P2 Hs2 E2) as K2.
+  destruct b1, b2; try reflexivity; [symmetry|]; tauto.
+Qed.
+
+Theorem cfg_words_order_independent ordV1 ordV2 stream1 stream2 G n L1 L2 :
+  cfg_wf G -> EU.names_disjoint G -> In (gS G) (gV G) -> EU.perm_order ordV1 -> EU.perm_order ordV2 ->
+  (forall x, In x stream1 -> ~ In x (gSg G)) -> (forall x, In x stream2 -> ~ In x (gSg G)) ->
+  CYK.cfg_words ordV1 stream1 G n = Some L1 -> CYK.cfg_words ordV2 stream2 G n = Some L2 -> seteq L1 L2.
+Proof.
+  intros Hwf Hdj HS P1 P2 Hs1 Hs2 E1 E2 w.
+  rewrite (ChomskyFinal.cfg_words_exact ordV1 stream1 G n L1 Hwf Hdj HS P1 Hs1 E1 w),
+          (ChomskyFinal.cfg_words_exact ordV2 stream2 G n L2 Hwf Hdj HS P2 Hs2 E2 w). tauto.
+Qed.
+
+Print Assumptions cfg_accepts_order_independent.
+Print Assumptions cfg_words_order_independent.
